@@ -74,6 +74,17 @@ CHECKS["C12"] = dict(level="exploration", design="DESIGN.md §6 C12, §3.1 Api (
          "The specification contributes only the frame condition; the detection power is the generator (defaults, duplicated required names, unsorted arrays under uniqueItems, documents with defaults/examples/refs).",
     note="Snapshots via encoding/json; spec.Schema round-trips through its own marshaller. Self-referential definitions are excluded as the property says.")
 
+CHECKS["C18"] = dict(level="model_checking", design="DESIGN.md §6 C18/C19, §3.1 Post",
+    technique="TLA+ predicate Post!Defaulted (applicable schemata through properties/allOf/selected anyOf-oneOf alternative, existential over selections) evaluated by TLC on instances recorded after post.ApplyDefaults",
+    text="For every recorded valid (schema, instance) pair the instance after validation + ApplyDefaults must be an acceptable result: present members untouched, absent members with an applicable default filled with "
+         "one of the applicable defaults, nothing else added, recursively through objects and array elements present in the data.",
+    note="Existential over the valid anyOf/oneOf alternatives (any may be the selected one). Defaults behind a $ref/allOf of a property are tolerated. Trusted: harness facts, encoder.")
+CHECKS["C19"] = dict(level="model_checking", design="DESIGN.md §6 C18/C19, §3.1 Post",
+    technique="TLA+ predicate Post!Pruned (described = declared property / matching pattern property / schema-valued additionalProperties of an applicable schema) evaluated by TLC on instances recorded after post.Prune, plus idempotence",
+    text="For every recorded valid pair the instance after validation + Prune must keep exactly the described members, unchanged, recursively inside nested objects and array elements; without anyOf/oneOf, "
+         "validating and pruning the pruned data again must change nothing.",
+    note="Existential over the valid anyOf/oneOf alternatives. Trusted: harness facts, encoder.")
+
 NOT_YET = {}
 
 
